@@ -89,11 +89,41 @@ CHECKS['C09'] = dict(text="Theorems over the Apply model (every interleaving of 
   technique="Coq proof (per-job invariant over all interleavings, _set translated from source) + submission-batch oracle")
 CHECKS['C15'] = dict(text="Theorems (Core, all schedules, every max_tasks_active >= 1 incl. below the chunk size, any consumer pace): "
   "the input iterator is advanced only while the number of tasks handed out and not yet returned is at most the bound, so "
-  "drawn-minus-delivered never exceeds max_tasks_active + chunk size - 1 (lookahead_bound), and main draws nothing while it is "
+  "drawn-minus-delivered never exceeds max_tasks_active + the largest chunk (lookahead_bound), and main draws nothing while it is "
   "not being asked (generator protocol: dispatch happens inside next()). Tie: the pre-draw wait and dispatch guards regenerated "
   "from pool.py, instance logs replayed through Core.step, and counting wrappers around the input generator and the consumer "
   "loop on the real pool (fast / slow / bursty consumers, known and unknown length, 4 start methods).", ref="5/C15",
   technique="Coq proof (look-ahead invariant over all schedules, guards generated from source) + counting-wrapper oracle")
+CHECKS['C04'] = dict(text="Theorems over the Fail model (every interleaving of workers whose user functions -- init / task / exit -- return, raise, "
+  "block or kill their process, the results handler, the death watch, the timeout handler and main; the order of shared-object "
+  "accesses in worker._raise, the death watch, the timeout handler and _handle_exception is read off the source): what main raises "
+  "really occurred in this call; once a user function failed the call cannot return normally; no deadlock on the failure path; every "
+  "schedule is bounded and a fair one ends with main raising an occurred failure; transport keeps class/args/attributes or yields "
+  "CannotPickleExceptionError with the repr, traceback as cause. Tie: structural kernels + Spec lemmas; end-to-end: 11 exception "
+  "shapes x positions x init/exit x use_dill x 4 start methods, the raised error matched against the user functions' own log of what "
+  "they raised, transportability decided without mpire. Partial: the exception object itself (pickling) is abstracted to three "
+  "picklability flags; latency is measured, not proved.", ref="5/C04",
+  technique="Coq proof (genuineness + delivery invariants, progress, decreasing measure over all interleavings) + exception-shape oracle")
+CHECKS['C07'] = dict(text="Theorems: (Fail model, all interleavings) a user function that kills its process in init / any task / exit leads, in "
+  "every fair schedule, to main raising an occurred failure; never a normal return; no reachable state is stuck; a death is only "
+  "reported for a worker that died; (Apply model extended with worker death, all interleavings) exactly the task the dead worker was "
+  "running fails with its error callback once, every other job gets its own value, the pool is not stopped and once nothing can move "
+  "every job is ready. The order 'store the error, then set the event' and 'apply: fail the job, restart the worker' are read off "
+  "pool._unexpected_death_handler. Tie: structural kernels + Spec lemmas; end-to-end crash injection at every crash point class "
+  "(init of first / later instance, task first / last / any, between tasks, exit, idle keep-alive, apply task) x victim x "
+  "configuration, with feeder quiescence. Partial: process liveness and the OS are abstracted to the FKilled state; instants where "
+  "the victim holds a cross-process lock are out of scope as the property says.", ref="5/C07",
+  technique="Coq proof (failure-path invariants + progress over all interleavings; apply per-job invariant) + crash-point injection")
+CHECKS['C08'] = dict(text="Theorems: the decision kernel comms._has_worker_timed_out is TRANSLATED from the source: fires iff the stamp is "
+  "non-zero and now - stamp >= t; on ANY timeline of one worker slot on which each call completes in less than t -- arbitrary idle "
+  "gaps, any number of calls / restarts / reuses, checks at any time -- no check fires (stamps set to now / cleared to 0 in a finally "
+  "clause: facts read off worker.py and comms.py); (Fail model) an overrunning init / task / exit makes main raise a TimeoutError of a "
+  "worker that really overran, in every fair schedule, however many workers block and for however long; (Apply model) only the "
+  "overrunning task fails. Tie: kernel evaluated in Coq against the REAL function with the clock replaced; stamp setters run for real; "
+  "end-to-end quiet histories (idle gaps > t, restarts, keep-alive, apply) and overrun scenarios (init|task|exit|apply x 1..n_jobs "
+  "blocked x 10t..3600 s) with latency measured. Partial: wall-clock latency (handler period 0.1 s, signal delivery) is measured, not "
+  "proved.", ref="5/C08",
+  technique="Coq proof (translated kernel + timeline induction; failure-path model) + kernel differential + latency oracle")
 PENDING = {}
 props = [json.loads(l) for l in open(os.path.join(V, 'properties.jsonl'))]
 m = dict(version=1,
